@@ -2,6 +2,7 @@ import OnetVerif.Model.C16
 import OnetVerif.Proofs.C16
 import OnetVerif.Proofs.C16Sim
 import OnetVerif.Proofs.C16Dir
+import OnetVerif.Proofs.C18Slices
 import OnetVerif.Shapes
 /-! Property C16 — service storage returns what was saved, per service, across restarts.
 
@@ -490,6 +491,65 @@ example : ∀ e ∈ [DEv.call [1, 2] [97] (.save [107] [7]), .close { pub := [1,
 
 /-- a type id alone is a decodable encoding -/
 example : decodable [List.replicate 16 7] (List.replicate 16 7) = true := by decide
+
+/-! ### the bucket name `GetAdditionalBucket` hands out is the service's to keep
+
+Names are values in the model above.  In the code they are byte slices, and a service keeps the name it was given
+in order to open the bucket later.  With the slices-over-arrays model of `Model/C18Slices.lean` (bytes as `Nat`):
+`GetAdditionalBucket` (context.go:292-296) copies `c.bucketName` into a fresh array (`make` + `copy`) and appends `_` and
+the caller's name to the **copy**. -/
+
+open C18 in
+/-- the name construction of `GetAdditionalBucket` -/
+def addbName (h : Sl.Heap Nat) (bucketName : Sl.Slice) (name : List Nat) : Sl.Heap Nat × Sl.Slice :=
+  name.foldl (fun st b => Sl.push st.1 st.2 b 0) (Sl.push (Sl.alloc h (Sl.read h bucketName) 0 0).1 (Sl.alloc h (Sl.read h bucketName) 0 0).2 95 0)
+
+open C18 in
+/-- without the copy (seeded change C16r2-A): `append(append(c.bucketName, '_'), name...)` -/
+def addbNameShared (h : Sl.Heap Nat) (bucketName : Sl.Slice) (name : List Nat) : Sl.Heap Nat × Sl.Slice :=
+  name.foldl (fun st b => Sl.push st.1 st.2 b 0) (Sl.push h bucketName 95 0)
+
+open C18 in
+theorem pushes_below (n : Nat) (name : List Nat) :
+    ∀ (h : Sl.Heap Nat) (s : Sl.Slice), n ≤ h.length → n ≤ s.arr →
+      Sl.Below n h (name.foldl (fun st b => Sl.push st.1 st.2 b 0) (h, s)).1 ∧
+      n ≤ (name.foldl (fun st b => Sl.push st.1 st.2 b 0) (h, s)).2.arr := by
+  induction name with
+  | nil => intro h s _ hs; exact ⟨Sl.Below.refl _ _, hs⟩
+  | cons b name ih =>
+    intro h s hn hs
+    have hp := Sl.push_below n h s b 0 hn hs
+    have := ih (Sl.push h s b 0).1 (Sl.push h s b 0).2 (Nat.le_trans hn hp.1.1) hp.2
+    exact ⟨hp.1.trans this.1, this.2⟩
+
+open C18 in
+/-- **every call of `GetAdditionalBucket` leaves all existing byte arrays alone and returns a name in an array of
+its own**: `c.bucketName`, the names returned by earlier calls (of this or any other service) and whatever else a
+service holds read the same afterwards — for every service name, every bucket name, any capacity behind
+`c.bucketName`. -/
+theorem c16_addb_name_fresh (h : Sl.Heap Nat) (bucketName : Sl.Slice) (name : List Nat) :
+    Sl.Below h.length h (addbName h bucketName name).1 ∧ h.length ≤ (addbName h bucketName name).2.arr ∧
+    ∀ s : Sl.Slice, s.arr < h.length → Sl.read (addbName h bucketName name).1 s = Sl.read h s := by
+  have ha := Sl.alloc_below h (Sl.read h bucketName) 0 0
+  have hp := Sl.push_below h.length (Sl.alloc h (Sl.read h bucketName) 0 0).1 (Sl.alloc h (Sl.read h bucketName) 0 0).2 95 0
+    ha.1.1 (by rw [ha.2]; exact Nat.le_refl _)
+  have hf := pushes_below h.length name _ _ (Nat.le_trans ha.1.1 hp.1.1) hp.2
+  have hb : Sl.Below h.length h (addbName h bucketName name).1 := (ha.1.trans hp.1).trans hf.1
+  exact ⟨hb, hf.2, fun s hs => Sl.read_below hb s hs⟩
+
+open C18 in
+/-- the witness (what seeded change C16r2-A did): a 4-byte service name in an array of 8 cells; the name returned for
+bucket `x` reads `svc_k…` after the same service asked for bucket `k` when the append goes onto `c.bucketName` itself —
+and stays `svc_x` with the copy; both constructions return the right bytes at the time of the call. -/
+theorem c16_addb_shared_name_witness :
+    let h0 : Sl.Heap Nat := [[99, 49, 54, 97, 0, 0, 0, 0]]
+    let bn : Sl.Slice := { arr := 0, off := 0, len := 4, cap := 8 }
+    (let a := addbNameShared h0 bn [120]; let b := addbNameShared a.1 bn [107]
+     Sl.read a.1 a.2 = [99, 49, 54, 97, 95, 120] ∧ Sl.read b.1 a.2 = [99, 49, 54, 97, 95, 107]) ∧
+    (let a := addbName h0 bn [120]; let b := addbName a.1 bn [107]
+     Sl.read a.1 a.2 = [99, 49, 54, 97, 95, 120] ∧ Sl.read b.1 a.2 = [99, 49, 54, 97, 95, 120] ∧
+     Sl.read b.1 b.2 = [99, 49, 54, 97, 95, 107] ∧ Sl.read b.1 bn = [99, 49, 54, 97]) := by
+  decide
 
 /-! ### the code regions the model stands for
 Regenerated from /repo's source on every run (`harness/cmd/astfacts` → `OnetVerif/Shapes.lean`): the
